@@ -60,6 +60,7 @@ func c03Alphabet(lmtp bool) []string {
 		"RCPT TO:<nobody@nowhere.example>",
 		"RCPT TO:<broken",
 		"DATA",
+		"DATA-CUT",
 		"DATA-LOOP",
 		"BDAT",
 		"RSET",
@@ -81,7 +82,13 @@ func c03Config(w c03World) []config.Node {
 	if w.Defer {
 		d = "yes"
 	}
-	return []config.Node{
+	var buf []config.Node
+	if w.Fault == "" {
+		// the worlds without an injected fault run with the default buffering of the
+		// message body (RAM up to a size, then a file); the others keep it in RAM
+		buf = append(buf, config.Node{Name: "buffer", Args: []string{"auto", "1M", os.TempDir()}})
+	}
+	return append(buf, []config.Node{
 		{Name: "defer_sender_reject", Args: []string{d}},
 		{Name: "max_received", Args: []string{"2"}},
 		{Name: "limits", Children: []config.Node{
@@ -97,7 +104,7 @@ func c03Config(w c03World) []config.Node {
 			{Name: "destination", Args: []string{"both.example"}, Children: blk("vt1", "vt2")},
 			{Name: "default_destination", Children: []config.Node{{Name: "reject", Args: []string{"550", "5.1.1", "no such user"}}}},
 		}},
-	}
+	}...)
 }
 
 func c03TargetsOf(rcpt string) []string {
@@ -228,6 +235,8 @@ func c03Exec(c c03Case) (res c03Run) {
 	mailOpen := false
 	mailArg := "" // the accepted MAIL command (its spelling is part of the state: permits are keyed by it)
 	ended := false
+	cut := false // the client disconnected in the middle of the message data
+	var cutOpen map[string]bool
 	commitFault := strings.HasSuffix(c.World.Fault, ":commit") || strings.HasSuffix(c.World.Fault2, ":commit")
 	openBefore := func() map[string]bool {
 		m := map[string]bool{}
@@ -254,6 +263,19 @@ func c03Exec(c c03Case) (res c03Run) {
 			err = cl.waitClosed()
 			ended = true
 			res.replies = append(res.replies, "C: <disconnect>")
+		case cmd == "DATA-CUT":
+			// the client vanishes in the middle of the message: header and part of the body, no final dot
+			cutOpen = openBefore() // the deliveries of the transaction that is cut off
+			rep, err = cl.cmd("DATA")
+			res.replies = append(res.replies, "C: DATA", "S: "+rep.String())
+			if err == nil && rep.Code == 354 {
+				cl.write(c03Msg + "second body line\r\n")
+				cl.c.Close()
+				err = cl.waitClosed()
+				ended = true
+				cut = true
+				res.replies = append(res.replies, "C: <header, two body lines, disconnect>")
+			}
 		case cmd == "DATA" || cmd == "DATA-LOOP":
 			rep, err = cl.cmd("DATA")
 			res.replies = append(res.replies, "C: DATA", "S: "+rep.String())
@@ -411,7 +433,6 @@ func c03Exec(c c03Case) (res c03Run) {
 				return fail(kind, "%s", strings.Join(v, "; "))
 			}
 		}
-		_ = openBefore
 	}
 	res.ended = ended
 	// ---- canonical state -------------------------------------------------------------------
@@ -456,6 +477,17 @@ func c03Exec(c c03Case) (res c03Run) {
 	res.state = strings.Join(parts, " | ")
 	if !ended {
 		return res
+	}
+	if cut {
+		// a message whose data never ended is a transaction that failed before the commit step
+		for _, t := range []*mon.Target{ehT1, ehT2} {
+			ds, _ := t.Snapshot()
+			for _, d := range ds {
+				if cutOpen[fmt.Sprintf("%s#%d", t.N, d.Seq)] && d.Closed == "commit" {
+					return fail("truncated-message-committed", "the client disconnected in the middle of the message data (no final dot) and delivery #%d on %s was committed for %v", d.Seq, t.N, d.Accepted)
+				}
+			}
+		}
 	}
 	// ---- end of session: everything closed, every permit returned ----------------------------
 	for _, t := range []*mon.Target{ehT1, ehT2} {
@@ -528,7 +560,7 @@ func c03Worlds(thorough bool) []c03World {
 func TestVerifC03(t *testing.T) {
 	r := vx.Start("C03", "sessions")
 	defer r.Finish()
-	r.Rule("explicit-state BFS over SMTP/LMTP command sequences (19 commands: greeting, MAIL valid / upper-case / refused sender / malformed / non-ASCII sender without SMTPUTF8, RCPT to target 1 / target 2 / both / upper-case / refused / malformed, DATA, DATA with too many Received fields, BDAT LAST, RSET, NOOP, QUIT, disconnect) on the real endpoint (go-smtp server over a pipe, pipeline built from configuration, two monitored targets (atomic and per-recipient), scripted check, real limits with concurrency 2 in the all/ip/source scopes), per world = {SMTP, LMTP} x {deferred, immediate sender reject} x one persistent fault (none or Start/AddRcpt/Body/status/Commit/Abort of a target, or a check reject at conn/sender/rcpt/body) x map iteration order; successor = fresh endpoint + replay of the history + one command; state = protocol mirror + typestate of every target delivery; invariants: target typestate (closed exactly once, no use after close), success reply => committed on every accepted recipient's target, failure before commit => nothing committed, at session end every delivery closed and every permit returned")
+	r.Rule("explicit-state BFS over SMTP/LMTP command sequences (20 commands: greeting, MAIL valid / upper-case / refused sender / malformed / non-ASCII sender without SMTPUTF8, RCPT to target 1 / target 2 / both / upper-case / refused / malformed, DATA, DATA cut off by a disconnect in the middle of the message, DATA with too many Received fields, BDAT LAST, RSET, NOOP, QUIT, disconnect) on the real endpoint (go-smtp server over a pipe, pipeline built from configuration, two monitored targets (atomic and per-recipient), scripted check, real limits with concurrency 2 in the all/ip/source scopes), per world = {SMTP, LMTP} x {deferred, immediate sender reject} x one persistent fault (none or Start/AddRcpt/Body/status/Commit/Abort of a target, or a check reject at conn/sender/rcpt/body) x map iteration order; successor = fresh endpoint + replay of the history + one command; state = protocol mirror + typestate of every target delivery; invariants: target typestate (closed exactly once, no use after close), success reply => committed on every accepted recipient's target, failure before commit => nothing committed, at session end every delivery closed and every permit returned")
 	r.Assume("a second fault is only combined in the thorough tier; TLS, AUTH and proxy-protocol paths are not driven here (AUTH: C14)")
 	if rp := r.Replay(); rp != nil {
 		var c c03Case
